@@ -52,6 +52,15 @@ def run(ctx):
                      {"a": "inject", "g": 1, "q": q, "b": "none"}, {"a": "done", "g": 1, "q": 0, "b": b},
                      {"a": "inject", "g": 2, "q": q, "b": "none"}, {"a": "done", "g": 2, "q": 0, "b": "piggy"}]
             stim.append({"t": len(stim) + 1, "reqs": REQS, "steps": steps, "hijack": len(stim) % 2 == 1})
+            # the lifetime counts from the exchange, not from its latest duplicate: 200 s pass, a duplicate is answered, 100 s
+            # more pass (no sweep) - the message ID is fresh again; then the same with a sweep in place of the second wait
+            steps = [{"a": "inject", "g": 1, "q": q, "b": "none"}, {"a": "done", "g": 1, "q": 0, "b": b},
+                     {"a": "age", "g": 0, "q": 200, "b": "none"},
+                     {"a": "inject", "g": 2, "q": q, "b": "none"}, {"a": "done", "g": 2, "q": 0, "b": "piggy"},
+                     {"a": "lapse", "g": 0, "q": 100, "b": "none"},
+                     {"a": "inject", "g": 1, "q": q, "b": "none"}, {"a": "done", "g": 1, "q": 0, "b": "piggy"},
+                     {"a": "inject", "g": 2, "q": q, "b": "none"}, {"a": "done", "g": 2, "q": 0, "b": "piggy"}]
+            stim.append({"t": len(stim) + 1, "reqs": REQS, "steps": steps, "hijack": len(stim) % 2 == 1})
     if not stim:
         raise vf.Machinery("no behaviours generated")
     for k, s_ in enumerate(stim):
